@@ -84,7 +84,7 @@ def run(ctx):
     rb.expect(okc, 'pop_best:cas', cas[0].loc if cas else f.where(), 'the element must be removed by CAS(&items[best_idx], best_elt, NULL) - the slot and the value that were observed',
               note='removal = CAS(observed slot, observed element, NULL)')
     # retry on CAS failure: the CAS is the condition of the do-while and failing (== 0) loops back
-    dw = [n for n in f.ast_walk() if f.nodes[n]['k'] == 'do']
+    dw = [n for n in f.ast_walk() if f.nodes[n]['k'] == 'do' and any(x.k == 'call' and x.n == 'parsec_atomic_cas_ptr' for x in f.expr(f.nodes[n]['cond']).walk())]   # do { } while(0) of macros are not retry loops
     okr = len(dw) == 1 and okc
     if okr:
         c = f.expr(f.nodes[dw[0]]['cond'])
